@@ -1,3 +1,237 @@
-//! C09 bounded native checks (not written yet)
-use super::Report;
-pub fn run() -> Option<Report> { None }
+//! C09 bounded: least-squares fits (polynomial, series line, circle) against their defining optimality conditions.
+//! Polynomial sizes K = 2..=6 on asymmetric / offset / clustered abscissae with small integer or dyadic values (power
+//! sums exact), with and without non-uniform positive weights; exact samples (coefficient recovery) and arbitrary data
+//! (weighted normal equations). Circles: three-point circle on integer triples, circle fit on arcs of 60..360 degrees
+//! from a ring of guesses, fixed-seed RANSAC on contaminated samples. Tolerances are scaled to the conditioning of
+//! each family (stated next to it); every clause failure reports the data set.
+use super::{close, Report};
+use crate::common::BestFit;
+use crate::func1::{Func1, Polynomial, Series1};
+use crate::geom2::{Circle2, Point2};
+
+fn pw(x: f64, k: usize) -> f64 { let mut r = 1.0; for _ in 0..k { r *= x; } r }
+fn horner(c: &[f64], x: f64) -> f64 { let mut y = 0.0; for k in (0..c.len()).rev() { y = y * x + c[k]; } y }
+
+// ---------------------------------------------------------------- polynomial least squares
+struct XSet { name: &'static str, xs: Vec<f64>, /// largest K used on this set, relative tolerance of recovered coefficients
+    max_k: usize, tol: f64 }
+
+fn xsets() -> Vec<XSet> {
+    let c13: Vec<f64> = (-3..=3).map(|k| 1.0 + k as f64 / 8192.0).collect(); // seven values within 3.7e-4 of 1.0
+    vec![
+        XSet { name: "asymmetric integers", xs: vec![-2.0, -1.0, 0.0, 1.0, 3.0, 4.0, 6.0], max_k: 6, tol: 1e-6 },
+        XSet { name: "offset from zero, dyadic", xs: vec![2.0, 2.5, 3.0, 3.25, 4.0, 4.5, 5.0, 5.75], max_k: 5, tol: 1e-4 },
+        XSet { name: "uneven, both signs", xs: vec![-3.0, -2.75, -1.0, 0.5, 0.75, 2.0, 3.5], max_k: 6, tol: 1e-6 },
+        XSet { name: "positive side only", xs: vec![0.0, 0.25, 0.5, 1.0, 1.5, 1.75, 2.0, 3.0, 3.5], max_k: 6, tol: 1e-6 },
+        XSet { name: "clustered within 4e-4 of 1.0", xs: c13, max_k: 2, tol: 1e-5 },
+        XSet { name: "clustered within 0.07 of -2.0", xs: (-4..=4).map(|k| -2.0 + k as f64 / 64.0).collect(), max_k: 3, tol: 1e-5 },
+    ]
+}
+const WEIGHTS: [[f64; 9]; 2] = [[1.0, 2.0, 0.5, 3.0, 1.5, 0.25, 4.0, 2.0, 0.75], [5.0, 0.125, 1.0, 1.0, 2.5, 3.0, 0.5, 6.0, 0.25]];
+const COEFFS: [[f64; 6]; 3] = [[1.0, -2.0, 3.0, 0.5, -1.0, 2.0], [-4.0, 1.0, 0.0, 2.0, 0.25, -0.5], [0.0, 0.0, 0.0, 0.0, 0.0, 1.0]];
+const DATA: [[f64; 9]; 2] = [[3.0, -1.0, 4.0, 1.0, -5.0, 9.0, 2.0, -6.0, 5.0], [0.5, 0.25, -2.0, 7.0, 1.0, -3.0, 8.0, 2.0, -0.75]];
+
+fn check_poly<const K: usize>(r: &mut Report, s: &XSet) {
+    if K > s.max_k { return; }
+    let n = s.xs.len();
+    let wsets: Vec<Option<Vec<f64>>> = vec![None, Some(WEIGHTS[0][..n].to_vec()), Some(WEIGHTS[1][..n].to_vec())];
+    for w in wsets.iter() {
+        let wv: Vec<f64> = match w { Some(v) => v.clone(), None => vec![1.0; n] };
+        // (a) exact samples of a polynomial of size K: that polynomial is returned
+        for cf in COEFFS.iter() {
+            let mut c = [0.0; K];
+            for k in 0..K { c[k] = cf[k]; }
+            if cf[5] == 1.0 { c = [0.0; K]; c[K - 1] = 1.0; }
+            let ys: Vec<f64> = s.xs.iter().map(|x| horner(&c, *x)).collect();
+            r.case();
+            let fit = Polynomial::<K>::least_squares(&s.xs, &ys, w.as_deref());
+            let cmax = c.iter().fold(1.0f64, |a, b| a.max(b.abs()));
+            let ok = (0..K).all(|k| (fit.c[k] - c[k]).abs() <= s.tol * cmax);
+            r.check(ok, "exact samples of a polynomial of the fitted size return that polynomial", || format!("K={} abscissae '{}' {:?} weights {:?} coefficients {:?}: fit {:?}", K, s.name, s.xs, w, c, fit.c));
+            // the fitted polynomial evaluates (Func1::f) to the samples
+            let ymax = ys.iter().fold(1.0f64, |a, b| a.max(b.abs()));
+            r.check((0..n).all(|i| (fit.f(s.xs[i]) - ys[i]).abs() <= s.tol * 100.0 * ymax), "fit of exact samples interpolates them", || format!("K={} abscissae '{}' {:?} weights {:?} coefficients {:?}: fit {:?}", K, s.name, s.xs, w, c, fit.c));
+        }
+        // (b) arbitrary data: weighted normal equations (residual orthogonal to every monomial column), local optimality
+        for d in DATA.iter() {
+            let ys = d[..n].to_vec();
+            r.case();
+            let fit = Polynomial::<K>::least_squares(&s.xs, &ys, w.as_deref());
+            let desc = || format!("K={} abscissae '{}' {:?} weights {:?} data {:?}: fit {:?}", K, s.name, s.xs, w, ys, fit.c);
+            let res: Vec<f64> = (0..n).map(|i| ys[i] - horner(&fit.c, s.xs[i])).collect();
+            let mut ok = true;
+            for j in 0..K {
+                let dot: f64 = (0..n).map(|i| wv[i] * pw(s.xs[i], j) * res[i]).sum();
+                let scale: f64 = (0..n).map(|i| wv[i] * pw(s.xs[i], j).abs() * (ys[i].abs() + (0..K).map(|k| (fit.c[k] * pw(s.xs[i], k)).abs()).sum::<f64>())).sum();
+                if !(dot.abs() <= s.tol * scale) { ok = false; }
+            }
+            r.check(ok, "residual orthogonal to every monomial column in the weighted inner product", desc);
+            let ss = |c: &[f64]| -> f64 { (0..n).map(|i| wv[i] * (ys[i] - horner(c, s.xs[i])).powi(2)).sum() };
+            let base = ss(&fit.c);
+            let mut opt = true;
+            for j in 0..K { for h in [0.03125, -0.03125, 0.5, -0.5] {
+                let mut c2 = fit.c; c2[j] += h * (1.0 + c2[j].abs());
+                if !(ss(&c2) >= base * (1.0 - 1e-9) - 1e-12) { opt = false; }
+            } }
+            r.check(opt, "no perturbed coefficient vector has a smaller weighted sum of squares", desc);
+        }
+    }
+}
+
+fn check_series(r: &mut Report) {
+    let c13: Vec<f64> = (-2..=2).map(|k| 1.0 + k as f64 / 8192.0).collect();
+    let sets: Vec<(&str, Vec<f64>, f64)> = vec![
+        ("asymmetric integers", vec![-2.0, -1.0, 0.0, 1.0, 3.0, 4.0, 6.0], 1e-9),
+        ("offset from zero", vec![10.0, 10.5, 11.0, 12.0, 12.25, 14.0], 1e-9),
+        ("two points", vec![1.0, 3.0], 1e-9),
+        ("five distinct values within 2.5e-4 of 1.0", c13, 1e-5),
+        ("distinct values within 0.004 of 0", vec![-0.00390625, -0.001953125, 0.0, 0.0009765625, 0.00390625], 1e-7),
+    ];
+    for (name, xs, tol) in sets.iter() {
+        let n = xs.len();
+        let mut ysets: Vec<(Vec<f64>, Option<(f64, f64)>)> = vec![];
+        for (m, b) in [(3.0, -2.0), (-0.5, 4.0), (128.0, 1.0)] { ysets.push((xs.iter().map(|x| m * x + b).collect(), Some((m, b)))); }
+        for d in DATA.iter() { ysets.push((d[..n].to_vec(), None)); }
+        for (ys, exact) in ysets.iter() {
+            r.case();
+            let s = match Series1::try_new(xs.clone(), ys.clone()) { Ok(s) => s, Err(_) => { r.check(false, "Series1::try_new accepts ascending abscissae", || format!("{:?}", xs)); continue; } };
+            let line = s.best_fit_line();
+            let fit = Polynomial::<2>::least_squares(xs, ys, None);
+            let desc = || format!("Series1 '{}' x {:?} y {:?}: best_fit_line [b, m] = {:?}, degree-1 fit {:?}", name, xs, ys, line.c, fit.c);
+            let scale = 1.0 + fit.c[0].abs().max(fit.c[1].abs());
+            r.check((line.c[0] - fit.c[0]).abs() <= tol * scale && (line.c[1] - fit.c[1]).abs() <= tol * scale, "Series1::best_fit_line agrees with the degree-1 least-squares fit", desc);
+            if let Some((m, b)) = exact {
+                let sc = 1.0 + m.abs().max(b.abs());
+                r.check((line.c[1] - m).abs() <= tol * sc && (line.c[0] - b).abs() <= tol * sc, "Series1::best_fit_line of exact samples of a line returns that line", desc);
+            }
+            // normal equations of the line: sum res = 0, sum x*res = 0
+            let res: Vec<f64> = (0..n).map(|i| ys[i] - (line.c[1] * xs[i] + line.c[0])).collect();
+            let s0: f64 = res.iter().sum();
+            let s1: f64 = (0..n).map(|i| xs[i] * res[i]).sum();
+            let sc: f64 = (0..n).map(|i| (1.0 + xs[i].abs()) * (ys[i].abs() + (line.c[1] * xs[i]).abs() + line.c[0].abs())).sum();
+            r.check(s0.abs() <= tol * sc && s1.abs() <= tol * sc, "Series1::best_fit_line residual orthogonal to the columns 1 and x", desc);
+        }
+    }
+}
+
+// ---------------------------------------------------------------- circles
+fn check_three_points(r: &mut Report) {
+    // general position: integer / dyadic triples with |orientation determinant| >= 1
+    let pts: Vec<Point2> = [(0.0, 0.0), (4.0, 0.0), (0.0, 3.0), (-2.0, 5.0), (7.0, 7.0), (1.5, -2.25), (-6.0, -1.0), (10.0, 2.0), (100.0, 200.0), (103.0, 196.0)].iter().map(|(x, y)| Point2::new(*x, *y)).collect();
+    for a in 0..pts.len() { for b in 0..pts.len() { for c in 0..pts.len() {
+        if a == b || b == c || a == c { continue; }
+        let (p0, p1, p2) = (pts[a], pts[b], pts[c]);
+        let det = (p0.x - p1.x) * (p1.y - p2.y) - (p1.x - p2.x) * (p0.y - p1.y);
+        if det.abs() < 1.0 { continue; }
+        r.case();
+        let desc = || format!("from_3_points({:?}, {:?}, {:?})", (p0.x, p0.y), (p1.x, p1.y), (p2.x, p2.y));
+        match Circle2::from_3_points(p0, p1, p2) {
+            Err(_) => r.check(false, "three points in general position yield a circle", desc),
+            Ok(c) => {
+                let ok = [p0, p1, p2].iter().all(|q| { let d = ((q.x - c.x()).powi(2) + (q.y - c.y()).powi(2)).sqrt(); (d - c.r()).abs() <= 1e-9 * (1.0 + c.r()) });
+                r.check(ok && c.r().is_finite() && c.r() > 0.0, "three-point circle passes through its three points", || format!("{} -> centre ({:?}, {:?}) r {:?}", desc(), c.x(), c.y(), c.r()));
+            }
+        }
+    } } }
+    // collinear triples: exactly collinear (integers, dyadics) and collinear up to rounding (decimal base point and direction)
+    let lines: [((f64, f64), (f64, f64)); 6] = [((0.0, 0.0), (1.0, 0.0)), ((1.0, 2.0), (0.0, 1.0)), ((-3.0, 1.0), (2.0, 1.0)), ((0.5, 0.25), (1.5, -2.0)),
+        ((100.1, 200.3), (0.7, 1.3)), ((-7.3, 0.9), (0.3, -1.1))];
+    let ts = [-3.0, -1.0, 0.0, 0.5, 1.0, 2.5, 7.0, 10.0];
+    for (o, d) in lines.iter() { for a in 0..ts.len() { for b in 0..ts.len() { for c in 0..ts.len() {
+        if a == b || b == c || a == c { continue; }
+        let q = |t: f64| Point2::new(o.0 + d.0 * t, o.1 + d.1 * t);
+        let (p0, p1, p2) = (q(ts[a]), q(ts[b]), q(ts[c]));
+        r.case();
+        let res = Circle2::from_3_points(p0, p1, p2);
+        r.check(res.is_err(), "collinear points are rejected", || format!("from_3_points({:?}, {:?}, {:?}) (points {:?} + t*{:?}, t = {:?}, {:?}, {:?}) -> {:?}", (p0.x, p0.y), (p1.x, p1.y), (p2.x, p2.y), o, d, ts[a], ts[b], ts[c], res.as_ref().map(|c| (c.x(), c.y(), c.r())).map_err(|_| "Err")));
+    } } } }
+}
+
+fn arc_points(cx: f64, cy: f64, rad: f64, a0_deg: f64, sweep_deg: f64, n: usize, amp: f64) -> Vec<Point2> {
+    (0..n).map(|i| {
+        let a = (a0_deg + sweep_deg * i as f64 / (n - 1) as f64).to_radians();
+        // deterministic, asymmetric radial perturbation (zero when amp == 0)
+        let k = i as f64;
+        let e = amp * (0.5 * (((k * 7.0 + 3.0) % 11.0) / 11.0 - 0.35) + 0.5 * (3.0 * a).cos() * if i % 3 == 0 { 1.0 } else { 0.4 });
+        Point2::new(cx + (rad + e) * a.cos(), cy + (rad + e) * a.sin())
+    }).collect()
+}
+/// gradient of S(cx, cy, r) = sum (|p - c| - r)^2 and the scale sum 2*| |p - c| - r |
+fn gradient(points: &[Point2], c: &Circle2) -> ([f64; 3], f64) {
+    let mut g = [0.0; 3];
+    let mut scale = 0.0;
+    for q in points {
+        let (vx, vy) = (q.x - c.x(), q.y - c.y());
+        let l = (vx * vx + vy * vy).sqrt();
+        let d = l - c.r();
+        g[0] += 2.0 * d * (-vx / l); g[1] += 2.0 * d * (-vy / l); g[2] -= 2.0 * d;
+        scale += 2.0 * d.abs();
+    }
+    (g, scale)
+}
+fn check_circle_fit(r: &mut Report) {
+    let circles = [(0.0, 0.0, 1.0), (3.0, -2.0, 5.0), (-40.0, 25.0, 12.5), (0.5, 0.25, 0.125)];
+    let arcs = [(0.0, 360.0), (17.0, 60.0), (200.0, 90.0), (-45.0, 135.0), (10.0, 200.0), (90.0, 270.0)];
+    // guesses: centre displaced by up to 0.15 r, radius scaled by 0.85 .. 1.15
+    let guesses = [(0.0, 0.0, 1.0), (0.1, 0.0, 0.9), (-0.1, 0.05, 1.1), (0.05, -0.15, 1.15), (-0.08, -0.08, 0.85), (0.0, 0.15, 1.0)];
+    for (cx, cy, rad) in circles { for (a0, sw) in arcs { for (gx, gy, gs) in guesses {
+        let guess = Circle2::new(cx + gx * rad, cy + gy * rad, rad * gs);
+        // exact samples: centre and radius are recovered
+        let pts = arc_points(cx, cy, rad, a0, sw, 40, 0.0);
+        r.case();
+        let desc = |res: &Option<Circle2>| format!("fitting_circle(40 samples of circle ({:?}, {:?}, r {:?}) over [{:?}, {:?}] degrees, guess ({:?}, {:?}, r {:?}), All) -> {:?}", cx, cy, rad, a0, a0 + sw, guess.x(), guess.y(), guess.r(), res.map(|c| (c.x(), c.y(), c.r())));
+        let res = Circle2::fitting_circle(&pts, &guess, BestFit::All).ok();
+        let ok = match res { Some(c) => (c.x() - cx).abs() <= 1e-6 * rad && (c.y() - cy).abs() <= 1e-6 * rad && (c.r() - rad).abs() <= 1e-6 * rad, None => false };
+        r.check(ok, "circle fit from a nearby guess recovers centre and radius from exact samples (arc >= 60 degrees)", || desc(&res));
+        // perturbed samples: a stationary point of the summed squared radial residuals
+        for amp in [0.02, 0.08] {
+            let pts = arc_points(cx, cy, rad, a0, sw, 40, amp * rad);
+            r.case();
+            let res = Circle2::fitting_circle(&pts, &guess, BestFit::All).ok();
+            let d2 = || format!("perturbed by up to {:?}: {}", amp * rad, desc(&res));
+            match res {
+                None => r.check(false, "circle fit of perturbed samples terminates successfully", d2),
+                Some(c) => { let (g, scale) = gradient(&pts, &c);
+                    let gn = (g[0] * g[0] + g[1] * g[1] + g[2] * g[2]).sqrt();
+                    r.check(gn <= 1e-5 * scale, "circle fit stops at a stationary point of the summed squared radial residuals", || format!("{} gradient {:?} (sum of 2|residual| = {:?})", d2(), g, scale)); }
+            }
+        }
+    } } }
+}
+
+fn check_ransac(r: &mut Report) {
+    // 36 samples of the generating circle (rounded to 2^-20) + outliers inside and outside; tolerance 0.01
+    for (cx, cy, rad, n_out) in [(0.0, 0.0, 10.0, 8usize), (5.0, -3.0, 4.0, 12), (-20.0, 11.0, 7.5, 18)] {
+        let q = |v: f64| (v * 1048576.0).round() / 1048576.0;
+        let mut pts: Vec<Point2> = (0..36).map(|i| { let a = (i as f64 * 10.0 + 3.0).to_radians(); Point2::new(q(cx + rad * a.cos()), q(cy + rad * a.sin())) }).collect();
+        for k in 0..n_out {
+            let a = (k as f64 * 47.0 + 11.0).to_radians();
+            let d = rad * (0.2 + 0.15 * ((k * 5) % 7) as f64) + if k % 2 == 0 { rad * 0.9 } else { 0.0 };
+            // insert the outliers between the inliers
+            pts.insert((k * 3 + 1) % pts.len(), Point2::new(q(cx + d * a.cos()), q(cy + d * a.sin())));
+        }
+        let tol = 0.01;
+        let gen = Circle2::new(cx, cy, rad);
+        let count = |c: &Circle2| pts.iter().filter(|p| c.distance_to(p).abs() < tol).count();
+        r.case();
+        let res = Circle2::ransac(&pts, tol, None, None, None);
+        let desc = || format!("ransac({} points: 36 on circle ({:?}, {:?}, r {:?}) + {} outliers, tol 0.01, default iterations) -> {:?}; generating circle has {} inliers", pts.len(), cx, cy, rad, n_out, res.as_ref().map(|c| (c.x(), c.y(), c.r(), count(c))).map_err(|_| "Err"), count(&gen));
+        r.check(match &res { Ok(c) => count(c) >= count(&gen), Err(_) => false }, "seeded RANSAC circle has at least as many inliers as the generating circle", desc);
+        // with a radius window that contains the generating radius
+        let res2 = Circle2::ransac(&pts, tol, Some(300), Some(rad * 0.9), Some(rad * 1.1));
+        r.check(match &res2 { Ok(c) => count(c) >= count(&gen) && c.r() >= rad * 0.9 && c.r() <= rad * 1.1, Err(_) => false }, "seeded RANSAC circle within a radius window has at least as many inliers as the generating circle", || format!("{} ; windowed -> {:?}", desc(), res2.as_ref().map(|c| (c.x(), c.y(), c.r(), count(c))).map_err(|_| "Err")));
+    }
+}
+
+pub fn run() -> Option<Report> {
+    let mut r = Report::new("polynomial sizes K=2..=6 x 6 abscissa sets (asymmetric integers, dyadic offset from zero, uneven both signs, positive side, 7 values within 4e-4 of 1.0 [K=2], 9 values within 0.07 of -2 [K<=3]) x {no weights, 2 non-uniform positive weight vectors} x {3 exact coefficient vectors, 2 arbitrary data vectors}; Series1 lines on 5 abscissa sets incl. clustered distinct values x 5 data vectors; three-point circles on all ordered triples of 10 points with |det| >= 1 and on 6 lines x all ordered triples of 8 parameters (exactly collinear and collinear up to rounding); circle fit on 4 circles x 6 arcs (60..360 degrees, 40 samples) x 6 guesses (centre within 0.16 r, radius within 15%) x {exact, perturbed 2% r, perturbed 8% r}; RANSAC on 3 contaminated sample sets (36 inliers + 8/12/18 outliers)");
+    for s in xsets().iter() {
+        check_poly::<2>(&mut r, s); check_poly::<3>(&mut r, s); check_poly::<4>(&mut r, s); check_poly::<5>(&mut r, s); check_poly::<6>(&mut r, s);
+    }
+    check_series(&mut r);
+    check_three_points(&mut r);
+    check_circle_fit(&mut r);
+    check_ransac(&mut r);
+    let _ = close(0.0, 0.0);
+    Some(r)
+}
